@@ -272,3 +272,19 @@ def floor_int(a):
 
 def ceil_int(a):
     return -z3.ToInt(-a.v)
+
+
+def rint(a):
+    """numpy.rint: round half to even; NaN and infinities are kept"""
+    v = a.v
+    fl_ = z3.ToInt(v)
+    frac = v - z3.ToReal(fl_)
+    r = z3.If(frac * 2 < 1, fl_, z3.If(frac * 2 > 1, fl_ + 1, z3.If(fl_ % 2 == 0, fl_, fl_ + 1)))
+    return _with_kind_of(a, z3.ToReal(r))
+
+
+def rint_int(a):
+    v = a.v
+    fl_ = z3.ToInt(v)
+    frac = v - z3.ToReal(fl_)
+    return z3.If(frac * 2 < 1, fl_, z3.If(frac * 2 > 1, fl_ + 1, z3.If(fl_ % 2 == 0, fl_, fl_ + 1)))
